@@ -86,6 +86,10 @@ func c10rules() []c10rule {
 		svc("links-unknown", "    links: [nope]\n"),
 		svc("volumes-from-unknown", "    volumes_from: [nope]\n"),
 		svc("exclusive-network-mode-networks", "    network_mode: host\n"),
+		svc("exclusive-network-mode-none-networks", "    network_mode: none\n"),
+		svc("exclusive-network-mode-bridge-networks", "    network_mode: bridge\n"),
+		svc("exclusive-network-mode-service-networks", "    network_mode: \"service:b\"\n"),
+		svc("exclusive-network-mode-container-networks", "    network_mode: \"container:abc\"\n"),
 		svc("exclusive-dockerfile-inline", "    build:\n      context: .\n      dockerfile: Dockerfile\n      dockerfile_inline: \"FROM x\"\n"),
 		svc("exclusive-count-device-ids-gpus", "    gpus:\n      - {driver: nvidia, count: 1, device_ids: [\"0\"]}\n"),
 		svc("exclusive-count-device-ids-deploy", "    deploy:\n      resources:\n        reservations:\n          devices:\n            - {capabilities: [gpu], count: 1, device_ids: [\"0\"]}\n"),
